@@ -117,6 +117,12 @@ class Ctx:
     fall_back_on_default: bool = False
     coerce: bool = False
     objects: Dict[str, "ObjectT"] = dfield(default_factory=dict)
+    budget: int = 3000  # node budget of one data generation (reset by gen_data.valid_data)
+
+    def spend(self, n=1):
+        self.budget -= n
+        if self.budget < 0:
+            raise Unspecified("generation budget exhausted")
 
     def al(self, s):
         return ALIASERS[self.aliaser](s)
@@ -341,6 +347,7 @@ class Coll(T):
 
     def valid(self, rng, cx, depth=0):
         n = rng.choice([0, 1, 2, 3]) if depth < 4 else 0
+        cx.spend(n + 1)
         out = []
         for _ in range(n):
             out.append(self.e.valid(rng, cx, depth + 1))
@@ -425,6 +432,7 @@ class MapT(T):
 
     def valid(self, rng, cx, depth=0):
         n = rng.choice([0, 1, 2, 3]) if depth < 4 else 0
+        cx.spend(n + 1)
         out = {}
         for _ in range(n):
             k = self.k.valid(rng, cx, depth + 1)
@@ -720,8 +728,8 @@ class Ann(T):
         return Err(cerrs + (r.errs if isinstance(r, Err) else []))
 
     def valid(self, rng, cx, depth=0):
-        for _ in range(60):
-            d = valid_under(self.t, self.cons, rng, cx, depth)
+        for _ in range(8):
+            d = valid_under(self.t, self.cons, rng, cx, depth)  # Unspecified from below propagates (no retry)
             try:
                 if isinstance(self.deser(d, cx), Ok):
                     return d
@@ -781,7 +789,8 @@ def valid_under(t, cons, rng, cx, depth):
             return base.valid(rng, cx, depth)
         lo, hi = cons.get("min_items", 0), cons.get("max_items", 3)
         out = []
-        for _ in range(rng.randint(lo, max(lo, hi))):
+        cx.spend(lo + 1)
+        for _ in range(rng.randint(lo, max(lo, hi)) if depth < 3 else lo):
             out.append(base.e.valid(rng, cx, depth + 1))
         if cons.get("unique"):
             seen, u = set(), []
@@ -840,7 +849,11 @@ class Union_(T):
         return Err(errs)
 
     def valid(self, rng, cx, depth=0):
-        return rng.choice(self.alts).valid(rng, cx, depth + 1)
+        alts = self.alts
+        if depth >= 3:  # prefer alternatives that do not recurse
+            flat = [a for a in alts if not any(isinstance(n, Ref) for n in a.walk())]
+            alts = flat or alts
+        return rng.choice(alts).valid(rng, cx, depth + 1)
 
 
 def has_choice(c):
@@ -1220,6 +1233,7 @@ class ObjectT(T):
         return next(f for f in self.fields if f.name == n)
 
     def valid(self, rng, cx, depth=0):
+        cx.spend(len(self.fields) + 1)
         out = {}
         present = set()
         for f in self.in_fields():
